@@ -334,11 +334,21 @@ def split_scenario(args):
     act = 0
     marks = {'a': {}, 'b': {}}
     mc = iter('ABCDEFGHIJKLMNOPQRSTUVWXYZ0123456789' * 3)
+    split = True
     for _ in range(R.randint(3, 14)):
         x = R.random()
-        if x < 0.35:
+        if x < 0.06 and split:
+            # ^Wo keeps the active window, ^Wc closes it (the other one stays): either way one window, showing ITS buffer at ITS line
+            if R.random() < 0.5:
+                keys += b'\x17o'
+            else:
+                keys += b'\x17c'
+                act = 1 - act
+            split = False
+        elif x < 0.35:
             keys += R.choice([b'\x17j', b'\x17k'])
-            act = 1 - act
+            if split:
+                act = 1 - act
         elif x < 0.7:
             k = R.randint(1, nl)
             keys += b'%dG' % k
@@ -357,13 +367,48 @@ def split_scenario(args):
     for name, src in (('a', A), ('b', B)):
         exp = list(src)
         for row, c in marks[name].items():
-            exp[row - 1] = c.encode() + exp[row - 1][1:]
+            if split or win[act]['buf'] == name:        # (with one window left only its buffer is written)
+                exp[row - 1] = c.encode() + exp[row - 1][1:]
         if got[name] != b'\n'.join(exp) + b'\n':
             gl = got[name].split(b'\n')
             diff = [i + 1 for i in range(min(len(gl), len(exp))) if gl[i] != exp[i]]
             return ('split:line-changed-across-switch', 'two windows on two buffers, keys %s: buffer f%s was edited on line(s) %s, expected marks on %s' % (
                 common.show(keys, 120), name, diff[:6], sorted(marks[name])), wit)
     return ('ok' if marks['a'] or marks['b'] else 'ok-trivial', None, wit)
+
+
+def unnamed_alt_scenario(args):
+    """the buffer without a file name is one of the two most recent buffers: `#` / `%` reach it like any other buffer"""
+    vi, idx = args
+    R = rng('c20', 'unalt', idx)
+    utext = b'scratch %d\n' % idx
+    f1 = b'f1 one\nf1 two\n'
+    hops = R.randint(1, 5)
+    script = b'a\n' + utext + b'.\n' + b'e! f1\n1s/^/X/\n'
+    cur = 'f1'
+    exp = []
+    for h in range(hops):
+        script += R.choice([b'e! #\n', b'e! #\n', b'e #\n']) if True else b''
+        last = script.rsplit(b'\n', 2)[-2]
+        if last == b'e #':
+            pass                    # refused: both buffers are modified; nothing changes
+        else:
+            cur = 'un' if cur == 'f1' else 'f1'
+        script += b'ec ' + S(10 + h) + b'\n1,$p\nec ' + S(50 + h) + b'\n'
+        exp.append(utext if cur == 'un' else b'X' + f1)
+    r, d = common.run_ex(vi, script, files={'f1': f1}, timeout=30, args=[])
+    common.rmcase(d)
+    wit = {'index': idx, 'script': script}
+    if r.timed_out or common.san_report(r):
+        return ('inconclusive', None, wit)
+    for h, want in enumerate(exp):
+        if S(10 + h) not in r.out or S(50 + h) not in r.out:
+            return ('inconclusive', None, wit)
+        got = r.out.split(S(10 + h), 1)[1].split(S(50 + h), 1)[0]
+        if got != want:
+            return ('unnamed:buffer-reached', 'unnamed buffer (text %r) and f1 (modified), hop #%d of %s: the current buffer shows %r, expected %r' % (
+                utext, h + 1, [x.decode() for x in script.split(b"\n") if x.startswith(b"e")], common.show(got, 60), common.show(want, 60)), wit)
+    return ('ok', None, wit)
 
 
 def run(tier, V):
@@ -383,7 +428,7 @@ def run(tier, V):
             V.violation(key, what, wit)
     nsc = 150 if tier == 'quick' else 2500
     scok = 0
-    for fn in (aw_scenario, split_scenario):
+    for fn in (aw_scenario, split_scenario, unnamed_alt_scenario):
         for key, what, wit in pmap(fn, [(vi, base + i) for i in range(nsc)]):
             if key == 'inconclusive':
                 V.inconclusive += 1
@@ -391,7 +436,7 @@ def run(tier, V):
                 scok += 1
             elif key != 'ok-trivial':
                 V.violation(key, what, wit)
-    nchk += 2 * nsc
+    nchk += 3 * nsc
     nsw += scok
     cov = {'autowrite_and_split_window_scenarios': 2 * nsc, 'evaluations': nchk, 'distinct_nontrivial': nsw, 'histories': n, 'observations': nchk, 'switches_checked': nsw, 'cuts': cuts,
            'rule': ('%d histories of 10-50 ops over 2,3,5,8 or 16 files: open (:e), switch (:e path, :e!, :e #, :b N, :b +/-, :b %%/#/^), edit, undo, redo, write, delete-buffer (:b !), renumber (:b ~), '
